@@ -6,7 +6,7 @@ SPEC = dict(
     sources=["SimbodyModel/Proto.lean", "SimbodyModel/ForceLaws.lean", "SimbodyModel/ForceLawsDriver.lean",
              "SimbodyProofs/ForceLaws_lemmas.lean", "SimbodyProofs/C37.lean", "SimbodyProofs/C12.lean", "Drivers/C12.lean"],
     lake_targets=["SimbodyProofs.ForceLaws_lemmas", "SimbodyProofs.C37"],
-    n=dict(quick=560, thorough=28000),
+    n=dict(quick=560, thorough=14000),
     modes=["c12", "c12contact"],
     rtol=1e-9, atol=1e-12,
     rule="mode c12: the 14 non-contact element kinds in turn (random trees of 1-4 bodies, random parameters and q,u); forces and PE "
